@@ -587,7 +587,7 @@ pub fn coordinator_main(check: &dyn Check, ctx: &Ctx, jobs: u64, max_secs: Optio
         }
         specs.push(a);
     }
-    let silence = Duration::from_secs(180);
+    let silence = Duration::from_secs(300);
     let (mut res, crashes) = run_workers(id, ctx.tier, ctx.seed, specs, silence);
 
     // A worker that died: re-run the chunk it was in under pinpoint mode to
